@@ -574,7 +574,7 @@ fn body(ctx: &Ctx) -> (Summary, Meta) {
         sum.total.outcome(format!("impl={g:?},spec={w:?}"));
     }
     let meta = Meta {
-        rule: "every relation word over {<,=,>} up to the length bound, realised as prefix sums for f64/f32/i32/i64/u32/u8/u64 (i64, u64 also with unit steps on a base beyond 2^53), each as contiguous array, every-2nd-element view of a poisoned array and reversed view; every non-empty NaN mask on every word up to the NaN bound (f64, f32); long words (one base relation + <= 2 deviations; NaN at every position); run-structured words (every word of 2 runs, and of 3 runs with all / selected boundaries) up to length 2080; every word also realised with the type's extreme values (+-inf, MIN/MAX) in place of its largest and smallest level. Oracle: classifier written from the statement (counts of <,=,>); NaN: never Rising. states = distinct (implementation result, spec class, last relation) triples reached = reachable states of the product of the implementation automaton and the spec automaton. Non-trivial = word of length >= 2 or NaN vector. Phase float-progressions: x_i = fl(b + i*step) for b = 2^24 - k (f32) / 2^53 - k (f64), k < 8, step in {1/2,1,2,3}, 3..12 members, both signs - progressions that cross the power of two where the float spacing doubles; relations read off the actual values. Phase builder-validation: every relation word of length 2..4 (5) x every NaN mask handed to Interp1DBuilder.x, Interp2DBuilder.x / .y, and as the y (x) axis of a grid whose other axis is a valid view into the same allocation starting at the same element (row / column of one table, stride-0 broadcast): accepted iff strictly rising.".into(),
+        rule: "every relation word over {<,=,>} up to the length bound, realised as prefix sums for f64/f32/i32/i64/u32/u8/u64 (i64, u64 also with unit steps on a base beyond 2^53), each as contiguous array, every-2nd-element view of a poisoned array and reversed view; every non-empty NaN mask on every word up to the NaN bound (f64, f32); long words (one base relation + <= 2 deviations; NaN at every position); run-structured words (every word of 2 runs, and of 3 runs with all / selected boundaries) up to length 2080; every word also realised with the type's extreme values (+-inf, MIN/MAX) in place of its largest and smallest level. Oracle: classifier written from the statement (counts of <,=,>); NaN: never Rising. states = distinct (implementation result, spec class, last relation) triples reached = reachable states of the product of the implementation automaton and the spec automaton. Non-trivial = word of length >= 2 or NaN vector. Phase float-progressions: x_i = fl(b + i*step) for b = 2^24 - k (f32) / 2^53 - k (f64), k < 8, step in {1/2,1,2,3}, 3..12 members, both signs - progressions that cross the power of two where the float spacing doubles; relations read off the actual values. Phase builder-validation: every relation word of length 2..4 (5) x every NaN mask handed to Interp1DBuilder.x (with Linear, Linear+extrapolate and four CubicSpline configurations incl. Periodic), Interp2DBuilder.x / .y, and as the y (x) axis of a grid whose other axis is a valid view into the same allocation starting at the same element (row / column of one table, stride-0 broadcast): accepted iff strictly rising.".into(),
         bounds: format!("relation words of length 0..{maxlen} (exhaustive: {} words); NaN masks on words of length <= {nanmax}; long words of lengths {:?}{}", (0..=maxlen).map(|l| 3u64.pow(l as u32)).sum::<u64>(), if quick { longs.clone() } else { vec![14, 130] }, if quick { "" } else { " (every length in the closed interval)" }),
         assumptions: vec![],
         extra: vec![("product_states".into(), Json::Arr(st.iter().map(|(g, w, l)| Json::str(&format!("{g:?}/{w:?}/{l}"))).collect()))],
@@ -666,6 +666,14 @@ fn builder_phase(len: usize, out: &mut JobOut) {
             let va = Array1::from(v.clone());
             let d1 = Array1::<f64>::zeros(m);
             judge("Interp1D.x", catch(|| Interp1DBuilder::new(d1.view()).x(va.view()).build().map(|_| ())), rising, out);
+            if m >= 3 {
+                use ndarray_interp::interp1d::cubic_spline::{BoundaryCondition, CubicSpline};
+                judge("Interp1D.x/CubicSpline", catch(|| Interp1DBuilder::new(d1.view()).x(va.view()).strategy(CubicSpline::new()).build().map(|_| ())), rising && m >= 3, out);
+                judge("Interp1D.x/CubicSpline/Natural+extrapolate", catch(|| Interp1DBuilder::new(d1.view()).x(va.view()).strategy(CubicSpline::new().extrapolate(true).boundary(BoundaryCondition::Natural)).build().map(|_| ())), rising, out);
+                judge("Interp1D.x/CubicSpline/Periodic", catch(|| Interp1DBuilder::new(d1.view()).x(va.view()).strategy(CubicSpline::new().boundary(BoundaryCondition::Periodic)).build().map(|_| ())), rising, out);
+                judge("Interp1D.x/CubicSpline/Periodic+extrapolate", catch(|| Interp1DBuilder::new(d1.view()).x(va.view()).strategy(CubicSpline::new().extrapolate(true).boundary(BoundaryCondition::Periodic)).build().map(|_| ())), rising, out);
+            }
+            judge("Interp1D.x/Linear+extrapolate", catch(|| Interp1DBuilder::new(d1.view()).x(va.view()).strategy(ndarray_interp::interp1d::Linear::new().extrapolate(true)).build().map(|_| ())), rising, out);
             let d2 = Array2::<f64>::zeros((m, m));
             judge("Interp2D.x", catch(|| Interp2DBuilder::new(d2.view()).x(va.view()).build().map(|_| ())), rising, out);
             judge("Interp2D.y", catch(|| Interp2DBuilder::new(d2.view()).y(va.view()).build().map(|_| ())), rising, out);
